@@ -241,7 +241,9 @@ C07R(e) ==
 
 \* The three ways a Serializer / Deserializer can hold its writer / reader (by value, by pointer, by unique_ptr;
 \* base/serializer.h specializes each) behave alike: documented bytes, exact size, value back, all bytes consumed
-FormName(f) == IF f = 0 THEN "by-value" ELSE IF f = 1 THEN "by-pointer" ELSE "by-unique_ptr"
+FormName(f) == CASE f = 0 -> "by-value" [] f = 1 -> "by-pointer" [] f = 2 -> "by-unique_ptr"
+                 [] f = 3 -> "constexpr-writer/pedantic-reader" [] f = 4 -> "pedantic-writer/buffer-reader"
+                 [] OTHER -> "stream-writer/stream-reader"
 FormsFails(e) ==
   UnionOver(Len(e.steps), LAMBDA i :
     LET s == e.steps[i]
